@@ -86,6 +86,10 @@ def run(ctx, args):
         "deferral paths exercised: chain state missing, timestamp not after the cache round, after the round cut-off",
         "time is explored in units of SnapshotRoundGap/2 (exact equality with ts + gap included)",
     ]
+    if ctx.tier == "thorough":
+        # system level: the CoSi exchange of a real multi-node network (spec/Net/Trace_Cosi.tla, monitor C24)
+        import cosinet
+        cosinet.run_cosinet(ctx)
 
 
 def validate(ctx, d, trace, events):
